@@ -212,7 +212,7 @@ func genC03(r *RNG, tier string) []Case {
 				nfiles++
 			}
 		}
-		base := histCase(h, firstFile, 4, fmt.Sprintf("files%d", min(nfiles, 4)), len(h.units) >= 3, "")
+		base := histCase(h, h.startFile(), 4, fmt.Sprintf("files%d", min(nfiles, 4)), len(h.units) >= 3, "")
 		inner := base.Run
 		base.Run = func(resp map[string]string) Outcome {
 			out := inner(resp)
@@ -232,7 +232,7 @@ func genC03(r *RNG, tier string) []Case {
 				}
 			}
 			for k := range full {
-				prev := posStr(firstFile, 4)
+				prev := posStr(h.startFile(), 4)
 				if k > 0 {
 					prev = next[k-1]
 				}
@@ -294,7 +294,7 @@ func genC04(r *RNG, tier string) []Case {
 	for i := 0; i < n; i++ {
 		h := genHistory(r, o, allCfgs[i%len(allCfgs)])
 		seed := r.U64()
-		line := h.line(posStr(firstFile, 4))
+		line := h.line(posStr(h.startFile(), 4))
 		cs = append(cs, Case{Line: line, Class: "fault-sequences", Nontrivial: true, Run: func(resp map[string]string) Outcome {
 			rr := NewRNG(seed)
 			full := strings.Split(resp["spec"], "&")
@@ -307,7 +307,7 @@ func genC04(r *RNG, tier string) []Case {
 			}
 			out := Outcome{OracleOK: true, CorrOK: true, Spec: resp["spec"]}
 			var accepted []string
-			pos := posStr(firstFile, 4)
+			pos := posStr(h.startFile(), 4)
 			npk := len(splitPackets(resp["packets"]))
 			attempts := rr.Range(1, 3)
 			var trace []string
@@ -342,11 +342,24 @@ func genC04(r *RNG, tier string) []Case {
 						extra = fmt.Sprintf("cut=%d end=cancel", rr.Intn(npk+1))
 						cancelEnd = true
 					case 6:
-						kind = r.Pickstr("invalid-event", "rand-event", "intvar-event", "rowsquery-event")
+						kind = r.Pickstr("invalid-event", "rand-event", "intvar-event", "rowsquery-event", "short-body-event")
 						var pk []byte
 						switch kind {
 						case "invalid-event":
 							pk = rr.Bytes(rr.Intn(40))
+						case "short-body-event":
+							// passes the gate, handled type, body too short to decode; kept only when the model predicts a
+							// clean error (a panic of the unchanged body parsers is outside the statement)
+							pk = mkEvent(byte(rr.Pick(4, 4, 4, 2, 15, 19, 30, 31, 32, 23, 16)), rr.Bytes(rr.Intn(12)), h.cfg[0] == '1')
+							at := 2 + rr.Intn(npk)
+							ok := false
+							if ans, err := theDriver.Ask(h.line(pos, fmt.Sprintf("inject=%d:%s", at, hx(pk)))); err == nil {
+								ok = strings.HasPrefix(fields(ans)["model"], "err@")
+							}
+							if !ok {
+								pk = mkEvent(13, rr.Bytes(17), h.cfg[0] == '1')
+							}
+							extra = fmt.Sprintf("inject=%d:%s", at, hx(pk))
 						default:
 							typ := map[string]byte{"rand-event": 13, "intvar-event": 5, "rowsquery-event": 29}[kind]
 							body := rr.Bytes(17)
@@ -359,7 +372,9 @@ func genC04(r *RNG, tier string) []Case {
 							pk[9], pk[10] = byte(l), byte(l>>8)
 							pk = append(pk, body...)
 						}
-						extra = fmt.Sprintf("inject=%d:%s", 2+rr.Intn(npk), hx(pk))
+						if extra == "" {
+							extra = fmt.Sprintf("inject=%d:%s", 2+rr.Intn(npk), hx(pk))
+						}
 					}
 				}
 				args := []string{extra}
